@@ -612,6 +612,24 @@ def c16_case(rec, hub, rng, tier, which):
         live = make_stock(fd, cfg, cls_name, lm=build_lm(fd, cfg), inflow=x)
         with quiet():
             live.compute()
+        if rng.random() < 0.4:
+            # a shallow copy of the live model's lifetime model (model_copy() / copy.copy), re-parameterised and built in between:
+            # the live stock, computed again, is what it was
+            import copy as _copy
+
+            lm_cp = live.lifetime_model.model_copy() if rng.random() < 0.5 else _copy.copy(live.lifetime_model)
+            with quiet():
+                lm_cp.set_prms(**{k: np.array(v) * (1.9 if k in ("mean", "weibull_scale") else 1.0) for k, v in cfg["truth"].items()})
+                lm_cp.sf, lm_cp.pdf
+                R_before = S.results_of(live)
+                live.compute()
+            R_after = S.results_of(live)
+            rec.event(M16, sig=f"reused-object-shallow-copy|{base}", cls=f"reused-object|a shallow copy of its lifetime model was used in between|{cfg['gclass']}")
+            for q in R_before:
+                ok, rel = allclose_scaled(R_before[q], R_after[q], 1e-12)
+                if not ok:
+                    rec.violation(M16, "recomputed-stock-changed-after-a-shallow-copy-of-its-lifetime-model-was-used:InflowDrivenDSM", dict(quantity=q, model=cfg["model"], rel_diff=rel))
+                    break
         if rng.random() < 0.5:
             # homogeneity at zero on an object that has been computed before: f(0) = 0 for every result, the cohort tables included
             live.inflow.values[...] = 0.0
@@ -1121,6 +1139,57 @@ def lm_time_not_first_case(rec, hub, rng, tier):
             if not ok:
                 rec.violation(M16, "label-evolves-with-another-label's-lifetime:model-declared-with-time-not-first", dict(quantity=q, region=j, model=model, rel_diff=rel, n=n))
                 return
+
+
+def c17_first_prms_dtype_case(rec, hub, rng, tier):
+    """The first parameters of a lifetime model come as arrays of whole numbers or of half / single precision; later ones are
+    ordinary fractional numbers.  The recomputed stock is that of a fresh stock with the later parameters."""
+    fd = hub.fd
+    items, gclass = time_grid(rng, tier, None)
+    items = items[:10]
+    tdim = fd.Dimension(letter="t", name="time", items=list(items))
+    rdim = fd.Dimension(letter="r", name="region", items=["EUR", "USA", "CHN"][: int(rng.integers(1, 4))], dtype=str)
+    dims = fd.DimensionSet(dim_list=[tdim, rdim])
+    model = str(rng.choice(["NormalLifetime", "LogNormalLifetime", "FoldedNormalLifetime", "WeibullLifetime", "FixedLifetime"]))
+    names = S.SURVIVAL[model][0]
+    span = float(items[-1] - items[0]) + 1.0
+    dt_ = [np.int64, np.int32, np.float32, np.float16][int(rng.integers(0, 4))]
+    first = {k: np.round(rng.uniform(2.0, max(3.0, 0.5 * span), size=dims.shape)).astype(dt_) if k in ("mean", "weibull_scale") else np.full(dims.shape, 2).astype(dt_) for k in names}
+    later = {k: rng.uniform(2.0, max(3.0, 0.5 * span), size=dims.shape) + 0.37 if k in ("mean", "weibull_scale") else rng.uniform(0.6, 1.9, size=dims.shape) for k in names}
+    form = int(rng.integers(0, 3))
+    wrap = (lambda v, k: fd.FlodymArray(dims=dims, values=v)) if form == 0 else (lambda v, k: fd.Parameter(dims=dims, values=v, name=k)) if form == 1 else (lambda v, k: v)
+    inflow = rng.uniform(1.0, 50.0, size=dims.shape)
+
+    late = bool(rng.random() < 0.6)  # the stock is declared with the model CLASS and gets its first parameters through set_prms
+
+    def build(prms, wrapped):
+        given = {k: (wrap(v, k) if wrapped else np.array(v, dtype=float)) for k, v in prms.items()}
+        if late and wrapped:
+            st = fd.InflowDrivenDSM(dims=dims, inflow=fd.StockArray(dims=dims, values=inflow.copy()), lifetime_model=getattr(fd, model), time_letter="t")
+            st.lifetime_model.set_prms(**given)
+            return st
+        lm = getattr(fd, model)(dims=dims, time_letter="t", **given)
+        return fd.InflowDrivenDSM(dims=dims, inflow=fd.StockArray(dims=dims, values=inflow.copy()), lifetime_model=lm, time_letter="t")
+
+    rec.event(M17, sig=f"first-prms-dtype|{model}|{np.dtype(dt_).name}|{form}", cls=f"fresh-twin|first parameters in {np.dtype(dt_).name}|{model}")
+    try:
+        with quiet(), np.errstate(all="ignore"):
+            live = build(first, True)
+            live.compute()
+            live.lifetime_model.set_prms(**{k: np.array(v) for k, v in later.items()})
+            live.compute()
+            with hub.pause():
+                fresh = build(later, False)
+                fresh.compute()
+    except Exception as e:
+        rec.violation(M17, "compute-raised-after-first-parameters-in-a-narrow-dtype", dict(model=model, dtype=np.dtype(dt_).name, exc=repr(e)[:200]))
+        return
+    A, B = S.results_of(live), S.results_of(fresh)
+    for q in A:
+        ok, rel = same_with_gaps(A[q], B[q], 1e-12)
+        if not ok:
+            rec.violation(M17, "recomputed-result-differs-from-fresh-object:first-parameters-were-given-in-a-narrow-dtype", dict(quantity=q, model=model, dtype=np.dtype(dt_).name, given_as=["FlodymArray", "Parameter", "ndarray"][form], rel_diff=rel))
+            return
 
 
 def _last_change(hist):
